@@ -69,6 +69,12 @@ def match_pat(p, v, env):
     raise NotATable(f"pattern kind {k}")
 
 
+def _strip_dt(e):
+    while isinstance(e, dict) and e.get("k") in ("DropTemps", "Use"):
+        e = e["e"]
+    return e
+
+
 def ev(e, env):
     k = e.get("k")
     if k in ("AddrOf", "Use", "Type"):
@@ -109,6 +115,18 @@ def ev(e, env):
         if e["op"] == "And":
             return l and ev(e["r"], env)
         return l or ev(e["r"], env)
+    if k == "DropTemps":
+        return ev(e["e"], env)
+    if k == "If" and isinstance(e.get("cond"), dict) and _strip_dt(e["cond"]).get("k") == "Let":
+        # `if let PAT = EXPR { .. } else { .. }`
+        c = _strip_dt(e["cond"])
+        v = ev(c["init"], env)
+        env2 = dict(env)
+        if match_pat(c["pat"], v, env2):
+            return ev(e["then"], env2)
+        if "else" in e:
+            return ev(e["else"], env)
+        return ("unit",)
     if k == "If":
         c = ev(e["cond"], env)
         if not isinstance(c, bool):
@@ -155,6 +173,18 @@ def ev(e, env):
         raise NotATable("no arm matched")
     if k == "MethodCall" and e["method"] in ("clone", "copied", "cloned") and not e["args"]:
         return ev(e["recv"], env)
+    if k == "MethodCall" and e["method"] in ("or", "and", "xor") and len(e["args"]) == 1:
+        a, b = ev(e["recv"], env), ev(e["args"][0], env)
+        if not ((a == NONE or a[0] == "some") and (b == NONE or b[0] == "some")):
+            raise NotATable("Option combinator on non-options")
+        if e["method"] == "or":
+            return a if a != NONE else b
+        if e["method"] == "and":
+            return b if a != NONE else NONE
+        return a if b == NONE else (b if a == NONE else NONE)
+    if k == "MethodCall" and e["method"] in ("is_some", "is_none") and not e["args"]:
+        a = ev(e["recv"], env)
+        return (a != NONE) if e["method"] == "is_some" else (a == NONE)
     raise NotATable(f"expression kind {k}")
 
 
@@ -176,3 +206,29 @@ def eval_expr(e, env):
         return ev(e, env)
     except Ret as r:
         return ("return", r.v)
+
+
+def eval_block_prefix(block_expr, env, want_local):
+    """Run the statements of a block in order over `env`, skipping statements that are not table-like (their bindings stay
+    unbound), and answer the value bound to `want_local` - or ("return", v) if the block leaves the function before that."""
+    e = _strip_dt(block_expr)
+    if e.get("k") != "Block":
+        raise NotATable("not a block")
+    env2 = dict(env)
+    try:
+        for s in e["block"]["stmts"]:
+            if want_local in env2:
+                break
+            try:
+                if s.get("s") == "Let" and "init" in s and "els" not in s:
+                    v = ev(s["init"], env2)
+                    match_pat(s["pat"], v, env2)
+                elif s.get("s") == "Expr":
+                    ev(s["e"], env2)
+            except NotATable:
+                continue
+    except Ret as r:
+        return ("return", r.v)
+    if want_local not in env2:
+        raise NotATable("the wanted local is never bound by a table-like statement")
+    return env2[want_local]
